@@ -48,6 +48,7 @@ ROOTS = ['/t/root', '/t/root/', '/', 't/root', '//t/root', '/t/root/x/..']
 KINDS = [0, 1, 2, 3]
 PINNED_DIGESTS = {'0c705014a388', '6306d55cde22'}      # ast digests of _resolve_path (pinned tree, repaired tree)
 ESCALATE: list = []
+DISAGREE: dict = {}                    # stage -> names of functions on which model and implementation disagree
 
 
 # ------------------------------------------------------------------------------------------------ implementation side
@@ -199,6 +200,7 @@ def corr_exhaustive(ck: Ck) -> None:
                   f'RawFileSystem._resolve_path over 6 roots: {len(bad_blocks)} blocks disagree ' + '; '.join(map(str, detail)))
     if bad_blocks:
         ck.tie_broken.append('correspondence paths (SM/PathNorm.v vs posixpath / _resolve_path / unify_path)')
+        DISAGREE.setdefault('exhaustive', set()).update(m[0] for _, m in bad_blocks)
         ck.extra['path_disagreements'] = detail
 
 
@@ -226,7 +228,7 @@ RAW_ALPHA = ['/', '/', '\\', '.', '.', 'a', 'r', '_', ' ', '~', 'é']
 def corr_random(ck: Ck) -> None:
     """Unstructured strings (runs of dots, spaces, names containing dots) with explicit literals."""
     fns = functions()
-    n = ck.budget(900, 9000)
+    n = ck.budget(900, 4500)
     corpus = ['', '.', '..', '...', '..a', 'a..', '/..', '//..', '///..', 'a/./../..', '/a/../../b', ' /..', '../', '..\\',
               'a\\..', 'a\\..\\..', '\\..\\a', '~/..', '/.//./', 'r/../r_/..', 'é/../é']
     cases = list(corpus)
@@ -241,26 +243,32 @@ def corr_random(ck: Ck) -> None:
             ck.seen(('rnd', p))
     ck.hist('corr_random_len', 'total', len(cases))
     fl = coq_list(f[1] for f in fns)
-    pre = PRE + '''Fixpoint bad_idx {A} (f : A -> bool) (n : N) (l : list A) : list N := match l with [] => [] | x :: r => (if f x then [] else [n]) ++ bad_idx f (n + 1)%N r end.
+    pre = PRE + '''Fixpoint bad_res {A B} (f : A -> B) (ok : A -> B -> bool) (n : N) (l : list A) : list (N * B) := match l with [] => [] | x :: r => (if ok x (f x) then [] else [(n, f x)]) ++ bad_res f ok (n + 1)%N r end.
 Fixpoint sl_eqb (a b : list str) : bool := match a, b with [], [] => true | x :: a', y :: b' => str_eqb x y && sl_eqb a' b' | _, _ => false end.
 '''
+    from harness.common import parse_coq_nested
+    bad_fns: set[str] = set()
     for lo in range(0, len(cases), 300):
         part = list(zip(cases[lo:lo + 300], exp[lo:lo + 300]))
         lit = coq_list(f'({coq_str(p)}, {coq_list(coq_str(r) for r in rs)})' for p, rs in part)
-        vals = ck.coq_eval(IMPORTS, [f'bad_idx (fun c : str * list str => sl_eqb (map (fun f => f (fst c)) {fl}) (snd c)) 0%N {lit}'],
-                           name='rnd', preamble=pre)
+        vals = ck.coq_eval(IMPORTS, [f'bad_res (fun c : str * list str => map (fun f => f (fst c)) {fl}) '
+                                     f'(fun c m => sl_eqb m (snd c)) 0%N {lit}'], name='rnd', preamble=pre)
         if vals is None:
             ck.obligation('correspondence:paths_random', False, 'model could not be evaluated')
             ck.tie_broken.append('correspondence random paths: model evaluation failed')
             return
-        bad += [lo + i for i in parse_coq_N_list(vals[0])]
+        for idx, model in parse_coq_nested(vals[0]):
+            mres = [''.join(chr(c) for c in m) for m in model]
+            bad.append((lo + idx, mres))
+            bad_fns |= {f[0] for f, a, b in zip(fns, mres, exp[lo + idx]) if a != b}
     ck.obligation('correspondence:paths_random', not bad,
                   f'{len(cases)} raw strings x {len(fns)} functions, model vs implementation: {len(bad)} disagreements'
-                  + (f'; first: {cases[bad[0]]!r} -> impl {exp[bad[0]]!r}' if bad else ''))
+                  + (f' in {sorted(bad_fns)}; first: {cases[bad[0][0]]!r} -> impl {exp[bad[0][0]]!r} model {bad[0][1]!r}' if bad else ''))
     if bad:
         ck.tie_broken.append('correspondence random paths (SM/PathNorm.v vs posixpath / _resolve_path / unify_path)')
-        ck.extra['random_path_disagreement'] = {'path': cases[bad[0]], 'implementation': exp[bad[0]],
+        ck.extra['random_path_disagreement'] = {'path': cases[bad[0][0]], 'implementation': exp[bad[0][0]], 'model': bad[0][1],
                                                 'functions': [f[0] for f in fns]}
+        DISAGREE.setdefault('random', set()).update(bad_fns)
     ck.sample({'path': cases[25], 'functions': [f[0] for f in fns], 'implementation_results': exp[25]})
 
 
@@ -624,6 +632,13 @@ def run(ck: Ck) -> None:
         ck.explain('instance:every_fs_access_goes_through_resolve_path')
         ck.explain('instance:root_')
         ck.explain('translate:Containment_gen')
+    # A model/implementation disagreement is explained only when every disagreeing function belongs to the part whose
+    # concrete violation was exhibited (unify_path by an escaping pack path, _resolve_path by an observed escape).
+    for stage, ob in (('exhaustive', 'correspondence:paths_exhaustive'), ('random', 'correspondence:paths_random')):
+        fs = DISAGREE.get(stage, set())
+        if fs and all(f == 'unify_path' and 'unify-path-escapes' in keys
+                      or f.startswith('resolve[') and any(k.startswith('escape-') for k in keys) for f in fs):
+            ck.explain(ob)
 
 
 def replay(data: dict) -> int:
